@@ -1,5 +1,6 @@
 ----------------------------- MODULE MC_Writer -----------------------------
 EXTENDS Writer, Json
-MCKeyPool == { <<2>>, <<3>>, <<1>>, <<2, 2>>, <<2, 1>>, <<3, 1>>, <<4>>, <<1, 4>> }
+\* rank 0 is a byte below '=' (a digit): "a" < "a1", although "a1=v" < "a=v" as rendered parameters
+MCKeyPool == { <<2>>, <<3>>, <<1>>, <<2, 2>>, <<2, 1>>, <<3, 1>>, <<4>>, <<1, 4>>, <<2, 0>>, <<3, 0, 2>> }
 Export == pc = "done" => PrintT(ToJson([supplied |-> supplied, emitted |-> emitted]))
 =============================================================================
